@@ -110,6 +110,7 @@ func (c04) Plan(tier string, seed int64) []mon.Workload {
 		{Name: "decoded-twice", N: int64(len(c04JSONTexts) * len(c04JSONUses)), Exhaustive: true},
 		{Name: "tuple-assign", N: int64(len(c04TupleSetups) * len(c04TupleStmts)), Exhaustive: true},
 		{Name: "string-in", N: int64(len(c04InCases)), Exhaustive: true},
+		{Name: "map-literals", N: c04MapLitCount(), Exhaustive: true},
 	}
 }
 
@@ -371,6 +372,9 @@ func (k c04) Describe(c *mon.Ctx, workload string, i int64) any {
 	if workload == "string-in" {
 		return map[string]any{"source": c04InCases[i], "interpreter": "v1 and v2"}
 	}
+	if workload == "map-literals" {
+		return map[string]any{"source": c04MapLitText(i), "interpreter": "v1 and v2"}
+	}
 	cs := k.build(c, workload, i)
 	return map[string]any{"source": gt.Print(gt.ParenthesizeStmts(cs.Stmts), nil)}
 }
@@ -476,6 +480,17 @@ func (k c04) Run(c *mon.Ctx, workload string, i int64) {
 		runV2Text(c, "tuple-assign", c04TupleText(i))
 		return
 	}
+	if workload == "map-literals" {
+		text := c04MapLitText(i)
+		runV2Text(c, "map-literals", text)
+		st, err := gt.FromStmts(drive.Parse("map-literals", text).Stmts)
+		if err != nil {
+			panic(err)
+		}
+		st = gt.CloneStmts(st)
+		runV1Compare(c, progCase{Stmts: st, Src: gt.Print(st, nil), Points: []*ref.Point{ref.NewPoint("m", nil, map[string]any{"f1": int64(1)}, time.Unix(1700000000, 0))}}, "c04.p")
+		return
+	}
 	if workload == "string-in" {
 		runV2Text(c, "string-in", c04InCases[i])
 		st, err := gt.FromStmts(drive.Parse("string-in", c04InCases[i]).Stmts)
@@ -551,4 +566,37 @@ func (k c04) Run(c *mon.Ctx, workload string, i int64) {
 		}
 		c.Sample(map[string]any{"source": src, "trace": ev})
 	}
+}
+
+// map-literals (exhaustive, v1 and v2): a map literal is its entries inserted
+// from left to right, a later entry with the same key replacing the earlier
+// one - whatever mix of constant and computed keys and values the entries are
+// made of. All ordered pairs over 5 key spellings x 5 value forms and all
+// ordered triples over a smaller pool, evaluated once at top level and twice
+// in a loop (with a write in between).
+var c04MLKeys = []string{"\"a\"", "k", "(\"a\")", "\"b\"", "kb"}
+var c04MLVals = []string{"1", "\"c\"", "v", "[7]", "nil"}
+var c04MLKeys3 = []string{"\"a\"", "k", "\"b\""}
+var c04MLVals3 = []string{"-2", "v"}
+
+func c04MapLitCount() int64 {
+	e := int64(len(c04MLKeys) * len(c04MLVals))
+	e3 := int64(len(c04MLKeys3) * len(c04MLVals3))
+	return e*e + e3*e3*e3
+}
+
+func c04MapLitText(i int64) string {
+	e := int64(len(c04MLKeys) * len(c04MLVals))
+	entry := func(j int64, keys, vals []string, n int) string {
+		return fmt.Sprintf("%s: %s", keys[int(j)/len(vals)], strings.Replace(vals[int(j)%len(vals)], "7", fmt.Sprint(70+n), 1))
+	}
+	var lit string
+	if i < e*e {
+		lit = "{" + entry(i/e, c04MLKeys, c04MLVals, 1) + ", " + entry(i%e, c04MLKeys, c04MLVals, 2) + "}"
+	} else {
+		i -= e * e
+		e3 := int64(len(c04MLKeys3) * len(c04MLVals3))
+		lit = "{" + entry(i/(e3*e3), c04MLKeys3, c04MLVals3, 1) + ", " + entry(i/e3%e3, c04MLKeys3, c04MLVals3, 2) + ", " + entry(i%e3, c04MLKeys3, c04MLVals3, 3) + "}"
+	}
+	return "k = \"a\"\nkb = \"b\"\nv = 5\nm = " + lit + "\np(m, len(m))\np(m[\"a\"])\nfor i = 0; i < 2; i = i + 1 {\n  n = " + lit + "\n  p(n)\n  n[\"a\"] = i\n  v = v + 1\n}\n"
 }
